@@ -62,9 +62,8 @@ int gv_sing;   /* ghost: verdict "the largest remaining element is not greater t
 #ifndef MI_BOUNDED
 /* ---- proof text (tier A); empty in the bounded checks so that no proof hint can prune a bounded path ------------ */
 #define MI_GHOST_ARRAYS                                                     \
-  Index *gv_GR = malloc((size_t)N * sizeof(Index));                          \
-  Index *gv_GC = malloc((size_t)N * sizeof(Index));                          \
-  __CPROVER_assume(gv_GR != NULL && gv_GC != NULL);                          \
+  Index *gv_GR = GV_NEW(Index, N);                                         \
+  Index *gv_GC = GV_NEW(Index, N);                                         \
   Float gv_gval = 0; /* ghost: the element (gv_gi, gv_gj) as the search of this step sees it */
 #define MI_TAIL1 gv_GR[l] = l; gv_GC[l] = l;
 /* before the search of a step: snapshot of the ghost element */
